@@ -72,7 +72,7 @@ def run(check: Check) -> None:
     h3 = list(itertools.product(cc.OPS, repeat=3))
     rng.shuffle(h3)
     hist += h3 if thorough else h3[:60]
-    cases = [(f, h) for f in cc.FORMULAS for h in hist]
+    cases = [(f, h) for f in cc.all_formulas(check.seed, thorough) for h in hist]
     run_cases(check, cases, _case)
     _hash_seed_companion(check)
 
